@@ -38,6 +38,7 @@ import (
 	"github.com/rs/zerolog"
 
 	"github.com/dadrus/heimdall/internal/cache"
+	"github.com/dadrus/heimdall/internal/cache/memory"
 	"github.com/dadrus/heimdall/internal/config"
 	"github.com/dadrus/heimdall/internal/handler/requestcontext"
 	"github.com/dadrus/heimdall/internal/heimdall"
@@ -52,38 +53,47 @@ type c11Access struct {
 	Hit bool
 }
 
+// The entries live in the REAL in-memory backend (internal/cache/memory, the default one): it keeps the
+// slice handed to Set and hands the stored slice out on Get, without copying.  A mechanism that goes on
+// writing into a buffer it has stored, or into an entry it has read, therefore changes what later
+// look-ups of OTHER requests receive - exactly as in production.  The double only records the look-ups.
 type c11Cache struct {
 	mu   sync.Mutex
-	m    map[string][]byte
+	real cache.Cache
 	gets []c11Access
 }
 
-func c11NewCache() *c11Cache { return &c11Cache{m: map[string][]byte{}} }
+func c11NewCache() *c11Cache {
+	real, err := memory.NewCache(nil, nil, nil)
+	if err != nil {
+		panic(err)
+	}
+
+	return &c11Cache{real: real}
+}
 
 func (c *c11Cache) Start(context.Context) error { return nil }
 func (c *c11Cache) Stop(context.Context) error  { return nil }
 
-func (c *c11Cache) Get(_ context.Context, key string) ([]byte, error) {
+func (c *c11Cache) Get(ctx context.Context, key string) ([]byte, error) {
 	c.mu.Lock()
 	defer c.mu.Unlock()
 
-	v, ok := c.m[key]
-	c.gets = append(c.gets, c11Access{Key: key, Hit: ok})
+	v, err := c.real.Get(ctx, key)
+	c.gets = append(c.gets, c11Access{Key: key, Hit: err == nil})
 
-	if !ok {
+	if err != nil {
 		return nil, errors.New("no entry")
 	}
 
 	return v, nil
 }
 
-func (c *c11Cache) Set(_ context.Context, key string, value []byte, _ time.Duration) error {
+func (c *c11Cache) Set(ctx context.Context, key string, value []byte, ttl time.Duration) error {
 	c.mu.Lock()
 	defer c.mu.Unlock()
 
-	c.m[key] = append([]byte(nil), value...)
-
-	return nil
+	return c.real.Set(ctx, key, value, ttl)
 }
 
 // ---------------------------------------------------------------- remote systems
@@ -1537,9 +1547,9 @@ func (env *c11Env) coq(c c11Case, o c11Obs, effs []c11Conf, tab *c11Sha) string 
 func c11Lit(s string) c11Piece { return c11Piece{K: "lit", S: s} }
 
 var (
-	c11SubIDs  = []string{"alice", "bob", "carolyn"}                                       //nolint:gochecknoglobals
+	c11SubIDs  = []string{"alice", "bobby", "bob", "carolyn"}                              //nolint:gochecknoglobals
 	c11Attrs   = []string{"", "x1", "x2"}                                                  //nolint:gochecknoglobals
-	c11HVals   = []string{"h1", "h22", "h333"}                                             //nolint:gochecknoglobals
+	c11HVals   = []string{"h1", "h2", "h22", "h333"}                                       //nolint:gochecknoglobals
 	c11Creds   = []string{"t.alice.r", "t.alice.rw", "t.bobby.r", "x.carol.r", "t.nobody"} //nolint:gochecknoglobals
 	c11ReqHdrs = []string{"X-P", "X-V1", "X-V2", "X-F1", "X-F2"}                           //nolint:gochecknoglobals
 )
@@ -2121,6 +2131,26 @@ func (env *c11Env) gen(r *vf.Rand) c11Case {
 		}
 	}
 
+	// earlier look-ups are repeated AFTER later ones have stored their entries (A B A, A B C A B): an entry
+	// has to be what has been stored under its key, whatever has been stored under other keys since
+	if r.Chance(45) {
+		seen := map[string]bool{}
+		var again []c11Step
+
+		for _, st := range c.Steps {
+			id := fmt.Sprintf("%d %v", st.Inst, st.Req)
+			if !seen[id] && len(again) < 3 {
+				again = append(again, c11Step{Inst: st.Inst, Req: st.Req, Rel: "revisit"})
+			}
+
+			seen[id] = true
+		}
+
+		if len(again) > 1 {
+			c.Steps = append(c.Steps, again...)
+		}
+	}
+
 	if r.Chance(15) && (kind == "remote" || kind == "ctx") {
 		st := c.Steps[r.Intn(len(c.Steps))]
 		e := c11Effective(c.Protos[c.Insts[st.Inst].Proto], c.Insts[st.Inst].Over)
@@ -2202,6 +2232,22 @@ func (env *c11Env) corpus() []c11Case {
 		{Protos: []c11Conf{intro}, Insts: []c11InstSpec{{Proto: 0}}, Tok: tok, Deny: []string{}, Rep: -1,
 			Steps: []c11Step{{Inst: 0, Req: c11Req{SubID: "alice", Cred: "t.alice.r"}, Rel: "first"}, {Inst: 0, Req: c11Req{SubID: "alice", Cred: "t.bobby.r"}, Rel: "diff:cred"},
 				{Inst: 0, Req: c11Req{SubID: "alice", Cred: "x.carol.r"}, Rel: "diff:cred"}, {Inst: 0, Req: c11Req{SubID: "alice", Cred: "t.alice.rw"}, Rel: "diff:cred"}}},
+		// stored entries are stable: A B C A B with inputs of equal length (so that the serialised entries are equally
+		// long), on the real in-memory backend - remote authorizer, contextualizer; A B A B for the two authenticators
+		{Protos: []c11Conf{plain}, Insts: []c11InstSpec{{Proto: 0}}, Tok: tok, Deny: []string{}, Rep: -1,
+			Steps: []c11Step{{Inst: 0, Req: req("alice"), Rel: "first"}, {Inst: 0, Req: req("bobby"), Rel: "diff:sub"}, {Inst: 0, Req: req("carol"), Rel: "diff:sub"},
+				{Inst: 0, Req: req("alice"), Rel: "revisit"}, {Inst: 0, Req: req("bobby"), Rel: "revisit"}}},
+		{Protos: []c11Conf{{Kind: "ctx", ID: "cs", TTL: five, HasPayload: true, Payload: c11Tpl{c11Lit("p="), {K: "sub"}}, Ep: c11Ep{URL: c11Tpl{c11Lit(base + "/c/ctx")}}}},
+			Insts: []c11InstSpec{{Proto: 0}}, Tok: tok, Deny: []string{}, Rep: -1,
+			Steps: []c11Step{{Inst: 0, Req: req("alice"), Rel: "first"}, {Inst: 0, Req: req("bobby"), Rel: "diff:sub"}, {Inst: 0, Req: req("carol"), Rel: "diff:sub"},
+				{Inst: 0, Req: req("alice"), Rel: "revisit"}, {Inst: 0, Req: req("bobby"), Rel: "revisit"}}},
+		{Protos: []c11Conf{intro}, Insts: []c11InstSpec{{Proto: 0}}, Tok: tok, Deny: []string{}, Rep: -1,
+			Steps: []c11Step{{Inst: 0, Req: c11Req{SubID: "alice", Cred: "t.alice.r"}, Rel: "first"}, {Inst: 0, Req: c11Req{SubID: "alice", Cred: "t.bobby.r"}, Rel: "diff:cred"},
+				{Inst: 0, Req: c11Req{SubID: "alice", Cred: "t.alice.r"}, Rel: "revisit"}, {Inst: 0, Req: c11Req{SubID: "alice", Cred: "t.bobby.r"}, Rel: "revisit"}}},
+		{Protos: []c11Conf{{Kind: "gen", ID: "gs", TTL: five, Ep: c11Ep{URL: c11Tpl{c11Lit(base + "/g/id")}, Method: "GET", Headers: []c11KT{{K: "X-Cred", T: c11Tpl{{K: "auth"}}}}}}},
+			Insts: []c11InstSpec{{Proto: 0}}, Tok: tok, Deny: []string{}, Rep: -1,
+			Steps: []c11Step{{Inst: 0, Req: c11Req{SubID: "alice", Cred: "t.alice.r"}, Rel: "first"}, {Inst: 0, Req: c11Req{SubID: "alice", Cred: "t.bobby.r"}, Rel: "diff:cred"},
+				{Inst: 0, Req: c11Req{SubID: "alice", Cred: "t.alice.r"}, Rel: "revisit"}, {Inst: 0, Req: c11Req{SubID: "alice", Cred: "t.bobby.r"}, Rel: "revisit"}}},
 		// no finding, generic authenticator: one header, session values are kept apart
 		{Protos: []c11Conf{{Kind: "gen", ID: "ga", TTL: five, Ep: c11Ep{URL: c11Tpl{c11Lit(base + "/g/id")}, Method: "GET", Headers: []c11KT{{K: "X-Cred", T: c11Tpl{{K: "auth"}}}}}}},
 			Insts: []c11InstSpec{{Proto: 0}}, Tok: tok, Deny: []string{}, Rep: 0,
